@@ -114,22 +114,26 @@ class weight(object):
     def __init__(self, val, w):
         rng_lhs_e = None
         rng_rhs_e = None
+        
+        # Operands that are expressions already sit on the expression
+        # stack in creation order (bounds, then weight): take them in 
+        # reverse order
+        to_expr(w)
+        w_e = pop_expr()
     
         if isinstance(val, (list,tuple)):
             if len(val) != 2:
                 raise Exception("Weight range must have two elements")
-            to_expr(val[0])
-            rng_lhs_e = pop_expr()
             to_expr(val[1])
             rng_rhs_e = pop_expr()
+            to_expr(val[0])
+            rng_lhs_e = pop_expr()
         elif isinstance(val, rng):
             rng_lhs_e = val.low
             rng_rhs_e = val.high 
         else:
             to_expr(val)
             rng_lhs_e = pop_expr()
-        to_expr(w)
-        w_e = pop_expr()
     
         self.weight_e = DistWeightExprModel(
             rng_lhs_e,
